@@ -25,6 +25,8 @@ type c06Case struct {
 	World    hx.World  `json:"world"`
 	Expiry   c06Expiry `json:"expiry"`
 	StepName string    `json:"step_name"` // name requested for the summary link (irrelevant for expiry)
+	ZoneSecs int       `json:"zone_secs"` // local time zone of the verifying process (offset east of UTC)
+	Params   bool      `json:"params"`    // a non-empty parameter dictionary is passed (names not used by the layout)
 }
 
 // strictExpiry parses YYYY-MM-DDTHH:MM:SSZ by hand (no time.Parse) and returns Unix seconds.
@@ -87,7 +89,8 @@ func c06Gen(t *rapid.T) c06Case {
 	o := hx.DefaultWorldOpts()
 	o.MaxSteps = 2
 	o.MaxInspections = 2
-	c := c06Case{World: hx.GenWorld(t, o), StepName: rapid.SampledFrom([]string{"", "", "final", "step0"}).Draw(t, "stepname")}
+	c := c06Case{World: hx.GenWorld(t, o), StepName: rapid.SampledFrom([]string{"", "", "final", "step0"}).Draw(t, "stepname"),
+		ZoneSecs: rapid.SampledFrom([]int{0, 0, -8 * 3600, 5*3600 + 1800, -12 * 3600, 14 * 3600, -3600}).Draw(t, "zone"), Params: rapid.Bool().Draw(t, "params")}
 	switch rapid.IntRange(0, 9).Draw(t, "expirykind") {
 	case 0, 1:
 		c.Expiry = c06Expiry{Mode: "abs", Abs: hx.GenExpires().Draw(t, "abs")}
@@ -146,8 +149,16 @@ func c06Run(c c06Case, r *hx.Rec) error {
 		return fmt.Errorf("harness: materialise: %v", err)
 	}
 	b.StepName = c.StepName
+	// the expiry is a UTC timestamp whatever the local zone of the verifier is
+	oldLocal := time.Local
+	time.Local = time.FixedZone("c06", c.ZoneSecs)
+	defer func() { time.Local = oldLocal }()
+	var params map[string]string
+	if c.Params {
+		params = map[string]string{"BUILD_ID": "20240101", "UNUSED": "x"}
+	}
 	t0 := time.Now()
-	out := b.Verify()
+	out := b.VerifyWith(nil, nil, params)
 	t1 := time.Now()
 	if out.LoadErr != nil {
 		return fmt.Errorf("harness: layout does not load: %v", out.LoadErr)
@@ -156,6 +167,7 @@ func c06Run(c c06Case, r *hx.Rec) error {
 	r.Label("wrapper=%s", w.Layout.Wrapper)
 	r.Label("entry=%s", w.Entry)
 	r.Label("mode=%s", c.Expiry.Mode)
+	r.Label("zone=%d", c.ZoneSecs/3600)
 	r.Key("%s|%s|%s|%s|%d|%s|%s", w.Layout.Wrapper, w.Entry, c.Expiry.Mode, c.Expiry.Abs, c.Expiry.Rel, c.Expiry.Text, fmt.Sprint(len(lay.Steps), len(lay.Inspect)))
 	if out.Panic != nil {
 		return fmt.Errorf("expiry %q: verification panicked: %v", expiry, out.Panic)
